@@ -1,6 +1,6 @@
 (* C08 -- Blocks render independently, in order (partial: see MANIFEST level text). *)
 From Rimu Require Import Base Unicode Regex RegexAnalysis RegexParse Str Types Tables Guards State Inline Block
-  Frame FrameBlock FrameInst OptionsLemmas MiscLemmas MoreLemmas Plain TableFacts PlainDoc Lines RegexSem MatchLemmas MatchExact ExactTable Locality CodeBlock HeaderDoc.
+  Frame FrameBlock FrameInst OptionsLemmas MiscLemmas MoreLemmas Plain TableFacts PlainDoc Lines RegexSem MatchLemmas MatchExact ExactTable Locality CodeBlock HeaderDoc ParaDoc Compose.
 
 (* the block loop emits the rendering of the first block followed by the rendering of the rest,
    from the state and reader the first block left *)
@@ -159,3 +159,24 @@ Proof.
   - split; [discriminate|]. split; [intros x Hx; vm_compute in Hx; intuition|vm_compute; repeat constructor].
   - split; [intros x Hx; vm_compute in Hx; vm_compute; intuition|]. eexists _, _. split; [reflexivity|]. split; reflexivity.
 Qed.
+
+(* IN ORDER, with verified kinds: a header as the first block of ANY reader is rendered to its element, a newline when something
+   follows, and then the rendering of the rest from the same session *)
+Theorem C08_header_then_rest : forall f doc n mk title rest s, quiet_default s -> header_ids_off s -> marker_ok mk -> title_ok title ->
+  doc_loop (S (S (S f))) doc (S n) (hd_line mk title :: rest) s =
+  match doc_loop (S (S (S f))) doc n rest s with
+  | Ok (r, s2) => Ok (header_html mk title ++ match rest with [] => [] | _ => [10] end ++ r, s2)
+  | Raise e => Raise e
+  | Fuel => Fuel
+  end.
+Proof. exact header_then_rest. Qed.
+Print Assumptions C08_header_then_rest.
+
+(* ... and a header, a blank line and a paragraph line (any line with the paragraph hypotheses of ParaDoc.v: plain text, an
+   emphasis, an HTML tag, a macro invocation) render to the two elements in order, separated by one newline, session unchanged *)
+Theorem C08_header_then_paragraph : forall n k doc mk title l R s, para_line (ienv_of s) l R ->
+  quiet_default s -> header_ids_off s -> marker_ok mk -> title_ok title ->
+  doc_loop (S (S (S (S n)))) doc (S (S (S k))) [hd_line mk title; []; l] s =
+  Ok (header_html mk title ++ [10] ++ $"<p>" ++ R ++ $"</p>", s).
+Proof. exact header_then_paragraph. Qed.
+Print Assumptions C08_header_then_paragraph.
